@@ -428,6 +428,14 @@ func c20RunCase(c *Ctx, idx int, cs *c20Case) {
 			r.Obs("bind_collision_retry", 1)
 			continue
 		}
+		// a configuration that is refused is refused every time; an exit for a reason of the environment (an address taken
+		// by another process, a connect attempt starved on a loaded machine; the in-process engine leaves no log to tell) is
+		// not: a valid configuration that exits is started once more before it is judged
+		if state == "exited" && cs.Expect != "refuse" && attempt < 1 {
+			p.Stop(false)
+			r.Obs("valid_config_exit_retried", 1)
+			continue
+		}
 		keep := c20Judge(c, cs, p, state, tail)
 		p.Stop(keep)
 		return
